@@ -158,6 +158,11 @@ type Engine struct {
 	ghost       map[string]value
 	pipes       map[*value]*pipeState
 	timers      []*timerRec
+	threads     []*thread
+	curThread   *thread
+	threadPanic any
+	killAck     chan struct{}
+	locks       map[*value]*lockState
 
 	fnInfos       map[*ssa.Function]*fnInfo
 	regionFail    map[*ssa.If]int
@@ -691,6 +696,11 @@ func (e *Engine) runPath(it workItem) {
 	e.ufCalls = nil
 	e.pipes = nil
 	e.timers = nil
+	e.locks = nil
+	if e.killAck == nil {
+		e.killAck = make(chan struct{})
+	}
+	defer e.killThreads()
 	e.ghost = nil
 	defer e.undoAll()
 	defer func() {
@@ -730,6 +740,7 @@ func (e *Engine) runPath(it workItem) {
 		}
 	}()
 	e.callSSA(nil, token.NoPos, e.entry, nil, nil)
+	e.drainThreads()
 	if e.cur.replaying() {
 		e.inconclusive("replay divergence: path ended before its decision prefix was consumed")
 	}
